@@ -610,6 +610,30 @@ static void gen_c08(Builder &b, bool thorough) {
 	if (rng.chance(1, 2)) { b.plan.park_site = rng.chance(1, 2) ? 2 : 3; b.plan.park_num = rng.chance(1, 2) ? 1 : 3; b.plan.park_den = 4; } // DATASET_SPLIT / DATASET_ITEM
 }
 
+// C08 key sweep: many keys per plan, a small range each, through the compiled initialiser (and sometimes the
+// interpreted one). This is a seeded sweep over an INPUT dimension (the key), not over schedules or faults: a key
+// whose SuperscalarHash programs contain a rarely generated instruction/immediate is only met by searching keys.
+static void gen_c08_keysweep(Builder &b) {
+	Context &gc = b.gc; rt::Rng &rng = b.rng;
+	uint64_t N = gc.N;
+	b.plan.keys.clear();
+	int nk = gc.small ? 24 : 3;
+	for (int i = 0; i < nk; ++i) b.plan.keys.push_back(Blob((uint32_t)rng.range(1, 48), rng.next() | 0x200000));
+	b.nkeys = nk;
+	b.phase = 0; b.task = 0;
+	b.alloc_dataset(0, 0, 0);
+	for (int i = 0; i < nk; ++i) {
+		uint32_t cf = rng.chance(4, 5) ? F_JIT : 0;
+		b.alloc_cache(0, cf, 0); b.init_cache(0, i);
+		{ Op &g = b.emit(DS_GUARD); g.d = 0; }
+		uint64_t count = 4 + rng.below(29), start = rng.below(N - count);
+		b.init_dataset(0, 0, start, count);
+		{ Op &o = b.emit(DS_CHECK); o.d = 0; }
+		b.release_cache(0);
+	}
+	b.plan.note = "keysweep";
+}
+
 // sort ops by phase keeping relative order (tasks of the concurrent phase were emitted task by task)
 static void finish(Plan &p) { std::stable_sort(p.ops.begin(), p.ops.end(), [](const Op &a, const Op &b) { return a.phase < b.phase; }); }
 
@@ -655,7 +679,7 @@ ops::Plan generate(Context &gc, uint64_t run_seed, uint64_t index) {
 	else if (P == "C15") { ho.faults = true; ho.checks = false; history(b, ho); }
 	else if (P == "C16") { ho.secure_only = true; ho.faults = true; ho.checks = false; ho.audit_every = thorough ? 1 : (int)b.rng.range(3, 8); history(b, ho); }
 	else if (P == "C14") gen_c14(b, thorough);
-	else if (P == "C08") gen_c08(b, thorough);
+	else if (P == "C08") { if (gc.mode == "keysweep") gen_c08_keysweep(b); else gen_c08(b, thorough); }
 	else history(b, ho);
 	finish(b.plan);
 	return b.plan;
